@@ -196,7 +196,8 @@ def judge_clone(col, name, orig, copy, children, keep_id, witness, via='clone'):
     if shared:
         labels = identities(orig)
         what = sorted(labels[i] for i in shared)
-        feat = sorted({w.split(' of ')[0].split(' /')[0].split(' <')[0] for w in what})
+        feat = sorted({''.join(ch for ch in w.split(' of ')[0].split(' /')[0].split(' <')[0] if not ch.isdigit()).strip()
+                       for w in what})
         fail('sub-objects-new', '%s shares %s' % (k, '+'.join(feat)), 'objects shared with the original: %r' % (what[:6],))
     # ids
     oi, ci = id_list(orig), id_list(copy)
@@ -712,12 +713,14 @@ def edit_sequence(rnd, target, observed, length):
     return labels, None
 
 
-def every_op_once(rnd, target, observed):
-    """Apply every applicable operation once (random order); `observed()` must stay unchanged."""
+def every_op_once(rnd, target, observed, first=()):
+    """Apply every applicable operation once (the ones in `first`, then the rest in random order);
+    `observed()` must stay unchanged."""
     before = observed()
     labels = []
-    ops = list(OPS)
+    ops = [o for o in OPS if o not in first]
     rnd.shuffle(ops)
+    ops = list(first) + ops
     for op in ops:
         lab = op(rnd, target)
         if not lab:
@@ -747,7 +750,7 @@ def run_independence(tier, seed):
                          'edit; distinct = (way, node kind, direction, has nested values)', exhaustive=False)
     rnd = random.Random('c11-ind-%s' % seed)
     seq_len = 8 if tier == 'quick' else 14
-    makers = doc_makers(tier, seed, max_secs=3 if tier == 'quick' else 4, per_shape=2 if tier == 'quick' else 3)
+    makers = doc_makers(tier, seed, max_secs=4 if tier == 'quick' else 5, per_shape=2 if tier == 'quick' else 3)
 
     # ---- tree copies: clone and export_leaf
     for wit, make in makers:
@@ -828,7 +831,8 @@ def run_independence(tier, seed):
                     changed = 'property'
                 else:
                     before = h.snap(lst)
-                    labels, d = every_op_once(rnd, sec, lambda lst=lst: h.snap(lst))
+                    labels, d = every_op_once(rnd, sec, lambda lst=lst: h.snap(lst),
+                                             first=(op_value_inner_edit, op_returned_list_edit))
                     changed = 'list'
                 if d:
                     col.fail(check='%s/%s' % (name, way),
@@ -844,7 +848,17 @@ NESTED_EDITS = ('value-inner-edit', 'returned-list-edit', 'nested-setitem', 'nes
 
 def edit_class(label):
     """Stable class of the edit that revealed a dependence (several edits reveal the same sharing)."""
-    return 'in-place-edit-of-nested-value' if label in NESTED_EDITS else label
+    if label in NESTED_EDITS:
+        return 'in-place-edit-of-nested-value'
+    if label.startswith('value') or label in ('dtype-change',):
+        return 'value-edit'
+    if label.endswith('attribute'):
+        return 'attribute-edit'
+    if label.startswith('rename'):
+        return 'rename'
+    if label.startswith(('remove', 'add', 'move', 'reorder', 'sort', 'replace')):
+        return 'structural-edit'
+    return label
 
 
 def _deep(v):
